@@ -10,6 +10,9 @@ CHECKS = {
          "trusts the rig's generator to stay inside the stated domain; compiler/toml is linked from /repo's working tree by the wrapper's go build", "DESIGN.md §3 C20"),
 }
 NOT_YET = {}
+CHECKS["C06"] = ("verdict monitor by construction over the real type checker (in-process pool + CLI confirmation), complete enumeration of place kind x access path x mutation form x context with a mutable-binding control group; native value witness for wrongly accepted cases",
+ "Exhaustive over the finite product the property names (2359 mutants + controls): every program applying one mutation form to one immutable place was rejected by the real compiler while the same program with the binding made mutable was accepted, so each verdict is attributable to the immutability rule.",
+ "the enumerated product is the rig's reading of the property's dimensions; syntactic contexts outside the seven listed are not covered", "DESIGN.md §3 C06")
 CHECKS["C10"] = ("verdict monitor (math/big range oracle) over the real type checker via the in-process pool with CLI confirmation, plus reference-value monitor over native executables and wasm modules printing every accepted literal",
  "Held on N literals: for each of the 12 integer types, boundary values (min-1..max+1), 2^k+-1 and random magnitudes up to 2^300 spelled in 4 bases with separators and sign, in let/argument/return positions, were accepted exactly when in range; every accepted literal was then printed by a produced native executable (all widths) and wasm module (<=64 bit) and equalled its mathematical value.",
  "trusts math/big; spelling space sampled, not enumerated; leading-zero decimals excluded", "DESIGN.md §3 C10")
